@@ -547,15 +547,19 @@ class Server(base_server.BaseServer):
             success = False
 
         if success is False:
-            if self.always_connect:
-                self.manager.pre_disconnect(sid, namespace)
-                self._send_packet(eio_sid, self.packet_class(
-                    packet.DISCONNECT, data=fail_reason, namespace=namespace))
-            else:
-                self._send_packet(eio_sid, self.packet_class(
-                    packet.CONNECT_ERROR, data=fail_reason,
-                    namespace=namespace))
-            self.manager.disconnect(sid, namespace, ignore_queue=True)
+            try:
+                if self.always_connect:
+                    self.manager.pre_disconnect(sid, namespace)
+                    self._send_packet(eio_sid, self.packet_class(
+                        packet.DISCONNECT, data=fail_reason,
+                        namespace=namespace))
+                else:
+                    self._send_packet(eio_sid, self.packet_class(
+                        packet.CONNECT_ERROR, data=fail_reason,
+                        namespace=namespace))
+            finally:
+                # the client was refused, whatever happens to the answer
+                self.manager.disconnect(sid, namespace, ignore_queue=True)
         elif not self.always_connect:
             self._send_packet(eio_sid, self.packet_class(
                 packet.CONNECT, {'sid': sid}, namespace=namespace))
